@@ -43,6 +43,15 @@ static int gz2_common_divisor_exists(gz2_t a, gz2_t b) {
   return (a % g == 0) && (b % g == 0);
 }
 
+/* values that are canonical by assumption (operand snapshots, opaque GMP results): no divisor refutation needed */
+static int fr_slot_used[FR_SLOTS];
+static int fr_known_canonical(gz2_t n, gz2_t d) {
+  for (int i = 0; i < FR_SLOTS; i++) if (fr_slot_used[i] && fr_slot[i].n == n && fr_slot[i].d == d) return 1;
+#ifdef GMP_OPAQUE_ARITH
+  if (gq_nops > 0 && n == gq_rn && d == gq_rd) return 1;
+#endif
+  return 0;
+}
 /* value of a FastRational according to its state byte; asserts the representation invariant */
 uint8_t vfr_wellformed(fr_m *x) {
   uint8_t st = x->f0;
@@ -50,13 +59,13 @@ uint8_t vfr_wellformed(fr_m *x) {
   if (st & 1) {
     gz2_t n = fr_word_num(x), d = fr_word_den(x);
     if (d == 0) return 0;
-    if (gz2_common_divisor_exists(n, d)) return 0;
+    if (!fr_known_canonical(n, d) && gz2_common_divisor_exists(n, d)) return 0;
   }
   if (st & 4) {
     if (x->f3 == 0) return 0;
     gz_t n = gz_get(&x->f3->f0), d = gz_get(&x->f3->f1);
     if (d <= 0) return 0;
-    if (gz2_common_divisor_exists(n, d)) return 0;
+    if (!fr_known_canonical(n, d) && gz2_common_divisor_exists(n, d)) return 0;
     if (st & 1) { if (n != fr_word_num(x) || d != fr_word_den(x)) return 0; }
     else if (fr_fits_word(n, d)) return 0;      /* equal values must have equal representation */
   }
@@ -69,7 +78,7 @@ static fr_val_t fr_value(fr_m *x) {
   else { v.n = gz_get(&x->f3->f0); v.d = gz_get(&x->f3->f1); }
   return v;
 }
-void vfr_snapshot(uint8_t slot, fr_m *x) { fr_slot[slot % FR_SLOTS] = fr_value(x); }
+void vfr_snapshot(uint8_t slot, fr_m *x) { fr_slot[slot % FR_SLOTS] = fr_value(x); fr_slot_used[slot % FR_SLOTS] = 1; }
 uint8_t vfr_same_as(uint8_t slot, fr_m *x) {
   fr_val_t v = fr_value(x), s = fr_slot[slot % FR_SLOTS];
   return v.n == s.n && v.d == s.d;
@@ -77,6 +86,17 @@ uint8_t vfr_same_as(uint8_t slot, fr_m *x) {
 /* r == slot_a (op) slot_b exactly; op: 0 +, 1 -, 2 *, 3 / */
 uint8_t vfr_is_result(fr_m *r, uint8_t op, uint8_t sa, uint8_t sb) {
   fr_val_t a = fr_slot[sa % FR_SLOTS], b = fr_slot[sb % FR_SLOTS], v = fr_value(r);
+#ifdef GMP_OPAQUE_ARITH
+  if (gq_nops == 0) {
+    /* no GMP operation: only the trivial identities may be answered without one */
+    if (op == 0) return (b.n == 0 && v.n == a.n && v.d == a.d) || (a.n == 0 && v.n == b.n && v.d == b.d);
+    if (op == 1) return (b.n == 0 && v.n == a.n && v.d == a.d);
+    if (op == 2) return ((a.n == 0 || b.n == 0) && v.n == 0 && v.d == 1) || (a.n == 1 && a.d == 1 && v.n == b.n && v.d == b.d) || (b.n == 1 && b.d == 1 && v.n == a.n && v.d == a.d);
+    return (b.n == 1 && b.d == 1 && v.n == a.n && v.d == a.d) || (a.n == 0 && v.n == 0 && v.d == 1);
+  }
+  /* exactly one GMP operation of the right kind on exactly the two operand values, and its result is the answer */
+  return gq_nops == 1 && gq_kind == op && gq_an == a.n && gq_ad == a.d && gq_bn == b.n && gq_bd == b.d && v.n == gq_rn && v.d == gq_rd;
+#endif
   gz2_t n, d;
   if (op == 0) { n = a.n * b.d + b.n * a.d; d = a.d * b.d; }
   else if (op == 1) { n = a.n * b.d - b.n * a.d; d = a.d * b.d; }
